@@ -66,6 +66,38 @@ def analyse(db):
     return rows, skipped, aff
 
 
+def factor_routes(db, qt, u, base):
+    """[(route, factor or exception)]: what one unit of the row is in base units (and back), asked in every container."""
+    import numpy as np
+    from barril.units import Array, FixedArray, Scalar
+
+    def first(x):
+        return float(x[0])
+
+    routes = (
+        ("to base: UnitDatabase.Convert(list)", lambda: first(db.Convert(qt, u, base, [1.0, 2.0]))),
+        ("to base: UnitDatabase.Convert(tuple)", lambda: first(db.Convert(qt, u, base, (1.0, 2.0)))),
+        ("to base: UnitDatabase.Convert(ndarray)", lambda: first(db.Convert(qt, u, base, np.array([1.0, 2.0])))),
+        ("to base: UnitDatabase.Convert(float)", lambda: float(db.Convert(qt, u, base, 1.0))),
+        ("to base: Scalar.GetValue", lambda: float(Scalar(1.0, u).GetValue(base))),
+        ("to base: Array[list].GetValues", lambda: first(Array([1.0, 2.0], u).GetValues(base))),
+        ("to base: Array[tuple].GetValues", lambda: first(Array((1.0, 2.0), u).GetValues(base))),
+        ("to base: FixedArray.GetValues", lambda: first(FixedArray(2, [1.0, 2.0], u).GetValues(base))),
+        ("from base: UnitDatabase.Convert(list)", lambda: first(db.Convert(qt, base, u, [1.0, 2.0]))),
+        ("from base: UnitDatabase.Convert(tuple)", lambda: first(db.Convert(qt, base, u, (1.0, 2.0)))),
+        ("from base: UnitDatabase.Convert(ndarray)", lambda: first(db.Convert(qt, base, u, np.array([1.0, 2.0])))),
+        ("from base: Array[list].CreateCopy(unit)", lambda: first(Array([1.0, 2.0], base).CreateCopy(unit=u).GetValues())),
+        ("from base: Scalar.GetValue", lambda: float(Scalar(1.0, base).GetValue(u))),
+    )  # fmt: skip
+    out = []
+    for name, fn in routes:
+        try:
+            out.append((name, fn()))
+        except Exception as e:
+            out.append((name, e))
+    return out
+
+
 def run(ctx):
     from barril.units import Scalar, UnitDatabase
 
@@ -84,17 +116,46 @@ def run(ctx):
         infos = db.unit_to_unit_info
         T = dims.Table(db, aff)
         n_rows = n_cmp = 0
+        refs, by_unit, off_rows = {}, {}, set()
         for qt, lst in rows.items():
             base = db.GetBaseUnit(qt)
             ref = None
             for r in lst:
+                by_unit[r["unit"]] = r
                 if r["unit"] == base:
                     ref = r
-            if ref is None:
-                if len(lst) < 2:
-                    ctx.count("rows without a comparison partner", len(lst))
-                    continue
+            if ref is None and len(lst) >= 2:
                 ref = min(lst, key=lambda r: (r["tol"], r["unit"]))
+            refs[qt] = ref
+            for r in lst:
+                if ref is None or not abs(r["k"] / ref["k"] - 1) <= max(K_TOL * (r["tol"] + (ref["tol"] if ref is not r else 0.0)), FLOOR_REL):
+                    off_rows.add(r["unit"])  # reported (or listed as known) by the comparison below
+
+        def expand(parts, depth=0):
+            """the parts of the parts, down to rows that do not decompose: (multiplier, [(atom, exp)], tolerance, rows passed)."""
+            mult, leaves, tol, via = 1.0, [], 0.0, []
+            for pre, s, e in parts:
+                sub = by_unit.get(s)
+                if sub is not None and depth < 4 and refs.get(infos[s].quantity_type) is not None and db.GetBaseUnit(infos[s].quantity_type) == refs[infos[s].quantity_type]["unit"]:
+                    m2, l2, t2, v2 = expand(sub["parts"], depth + 1)
+                    # a base unit need not be coherent with the base units of its parts ('kg/m3/d' is the base of its
+                    # type): the constant of the sub-row's quantity type travels with it
+                    mult *= (pre * m2 * refs[infos[s].quantity_type]["k"]) ** e
+                    leaves += [(a, x * e) for a, x in l2]
+                    tol += abs(e) * (t2 + sub["tol"])
+                    via += [s] + v2
+                else:
+                    mult *= pre**e
+                    leaves.append((s, e))
+                    tol += abs(e) * grammar.written_precision(infos[s], False)
+            return mult, leaves, tol, via
+
+        for qt, lst in rows.items():
+            base = db.GetBaseUnit(qt)
+            ref = refs[qt]
+            if ref is None:
+                ctx.count("rows without a comparison partner", len(lst))
+                continue
             for r in lst:
                 n_rows += 1
                 ctx.nt(("row", r["unit"]))
@@ -131,6 +192,72 @@ def run(ctx):
                         ctx.violation("row:%s:ratio=%s" % (r["unit"].replace(" ", "_"), sig3(ratio)), {"row": r["unit"], "dynamic": True, "composed": repr(acc), "ratio": ratio}, replay={"row": r["unit"]})
                 except Exception as e:
                     ctx.violation("dynamic-raised:%s" % r["unit"].replace(" ", "_"), {"row": r["unit"], "error": repr(e)[:200]}, replay={"row": r["unit"]})
+                # the same amount composed from powers ("in**2", numerator / denominator) - the matching of two units
+                # of one quantity type at an exponent other than 1 takes another path than repeated multiplication
+                try:
+                    num = den = None
+                    for pre, s, e in r["parts"]:
+                        leaf = Scalar(pre, s) ** abs(e)
+                        if e > 0:
+                            num = leaf if num is None else num * leaf
+                        else:
+                            den = leaf if den is None else den * leaf
+                    acc2 = num if den is None else ((1.0 / den) if num is None else num / den)
+                    ctx.ev()
+                    ctx.count("rows composed from powers")
+                    got2 = dims.basemag(T, acc2.GetValue(), dims.items_of(acc2.GetQuantity())) * Fr(ref["k"])
+                    ratio2 = float(want / got2)
+                    if not abs(ratio2 - 1) <= limit:
+                        ctx.violation("row:%s:ratio=%s" % (r["unit"].replace(" ", "_"), sig3(ratio2)), {"row": r["unit"], "dynamic": "powers", "composed": repr(acc2), "ratio": ratio2}, replay={"row": r["unit"]})
+                    # both compositions are the same product of the same leaves: they must tell the same amount
+                    # (also where the row itself is a known finding of the table)
+                    ctx.ev()
+                    if not abs(float(got2 / got) - 1) <= 1e-9:
+                        ctx.violation("two-compositions-of-the-same-parts-differ", {"row": r["unit"], "by_multiplication": repr(acc), "by_powers": repr(acc2), "ratio": float(got2 / got)}, replay={"row": r["unit"]})
+                except Exception as e:
+                    ctx.violation("dynamic-powers-raised:%s" % r["unit"].replace(" ", "_"), {"row": r["unit"], "error": repr(e)[:200]}, replay={"row": r["unit"]})
+                # the same amount from the parts of the parts ('lbf.ft/in2' from lbf, ft and in - not from the area row 'in2'):
+                # units of one quantity type now meet at exponents other than 1, one row after the other in one process
+                try:
+                    mult, leaves, xtol, via = expand(r["parts"])
+                    if via:
+                        compositions = []
+                        for form in ("powers", "multiplication"):
+                            num = den = None
+                            for s_, e in leaves:
+                                if form == "powers":
+                                    terms = [Scalar(1.0, s_) ** abs(e)]
+                                else:
+                                    terms = [Scalar(1.0, s_)] * abs(e)
+                                for t_ in terms:
+                                    if e > 0:
+                                        num = t_ if num is None else num * t_
+                                    else:
+                                        den = t_ if den is None else den * t_
+                            acc3 = num if den is None else ((1.0 / den) if num is None else num / den)
+                            compositions.append((form, acc3, dims.basemag(T, acc3.GetValue() * mult, dims.items_of(acc3.GetQuantity())) * Fr(ref["k"])))
+                        ctx.ev()
+                        ctx.count("rows composed from the parts of their parts")
+                        (f1, a1, g1), (f2, a2, g2) = compositions
+                        row_limit = max(K_TOL * (r["tol"] + xtol + (ref["tol"] if ref is not r else 0.0)), FLOOR_REL)
+                        if not abs(float(g1 / g2) - 1) <= 1e-9:
+                            ctx.violation("two-compositions-of-the-same-parts-differ", {"row": r["unit"], "leaves": leaves, f1: repr(a1), f2: repr(a2), "ratio": float(g1 / g2)}, replay={"row": r["unit"]})
+                        elif r["unit"] not in off_rows and not (set(via) & off_rows):
+                            ctx.count("rows composed from the parts of their parts and compared with the named row")
+                            ratio3 = float(want / g1)
+                            if not abs(ratio3 - 1) <= row_limit:
+                                ctx.violation("row-from-the-parts-of-its-parts:%s:ratio=%s" % (r["unit"].replace(" ", "_"), sig3(ratio3)), {"row": r["unit"], "leaves": leaves, "through": via, "composed": repr(a1), "ratio": ratio3, "limit": row_limit}, replay={"row": r["unit"]})
+                except Exception as e:
+                    ctx.violation("dynamic-expanded-raised:%s" % r["unit"].replace(" ", "_"), {"row": r["unit"], "error": repr(e)[:200]}, replay={"row": r["unit"]})
+                # the row's factor as every public conversion route tells it (floats, lists, tuples, arrays, value objects)
+                for route, got_f in factor_routes(db, qt, r["unit"], base):
+                    ctx.ev()
+                    ctx.count("row factors observed through API routes")
+                    want_f = r["factor"] if route.startswith("to base") else 1.0 / r["factor"]
+                    if isinstance(got_f, Exception):
+                        ctx.violation("route-raised:%s" % route, {"row": r["unit"], "route": route, "error": repr(got_f)[:200]}, replay={"row": r["unit"]})
+                    elif not abs(got_f - want_f) <= 1e-12 * abs(want_f):
+                        ctx.violation("row-factor-differs-by-route:%s" % route, {"row": r["unit"], "route": route, "factor_by_route": got_f, "factor_of_the_row": want_f}, replay={"row": r["unit"]})
                 if n_rows <= 3:
                     ctx.sample({"row": r["unit"], "parts": r["parts"], "table_factor": r["factor"], "k_over_ref": r["k"] / ref["k"], "tol": r["tol"]})
         # SI-prefix clause
